@@ -248,7 +248,7 @@ def c02(tier):
     exe = build.build("plain")
     full = tier == "thorough"
     others = {}
-    fam = families(ck, exe, ["F1", "F3", "F4", "F5", "F7"] + (["F6", "F2", "F8"] if full else []), False, True)   # per-move expectations: quick-size families also in the thorough tier
+    fam = families(ck, exe, ["F1", "F3", "F4", "F5", "F7", "F9"] + (["F6", "F2", "F8"] if full else []), False, True)   # per-move expectations: quick-size families also in the thorough tier
     applied = 0
     for f in fam:
         take(ck, "C02", f["disc"], others)
@@ -344,7 +344,7 @@ def c03(tier):
     need(cnt, ["undo_cmp", "undo", "undonull"], "C03 traces")
     take(ck, "C03", viols, others)
     # make/unmake of every legal move of the family positions, and of every legal reply below it (two levels, complete)
-    fam = families(ck, exe, ["F3", "F4", "F5", "F8"] + (["F1", "F2", "F7"] if full else []), False, False, nested=True)
+    fam = families(ck, exe, ["F3", "F4", "F5", "F8", "F9"] + (["F1", "F2", "F7"] if full else []), False, False, nested=True)
     for f in fam:
         take(ck, "C03", f["disc"], others)
     ck.cov["nested_two_level_unmakes"] = sum(f["nested"] for f in fam)
@@ -354,7 +354,7 @@ def c03(tier):
                       "repetition/draw answers, static evaluation, generated move set, history length) compared by the monitor with the observation "
                       "recorded before the matching make, in seeded random make/unmake trees (depth<=5, null moves interleaved) after random game "
                       "prefixes, plus real Search::go and perft runs whose root position is observed before and after; distinct_nontrivial = distinct "
-                      "positions observed in those trees; on every position of families F1 F3 F4 F5 F8 (en passant, castling, promotions, home-rook captures, promotions "
+                      "positions observed in those trees; on every position of families F1 F3 F4 F5 F8 F9 (en passant, castling, promotions, home-rook captures, castling with an en-passant square set, promotions "
                       "next to like pieces that can be captured) every legal move and every legal reply below it is made and unmade with the full observation compared")
     ck.cov["monitor_counters"] = cnt
     ck.sample(dict(direction="code->spec", lines=[json.loads(l) for l in open(shards[0]).readlines()[:2]]))
